@@ -268,7 +268,8 @@ class DataFormat(object):
 
     @property
     def decimal_separator(self):
-        return self._decimal_separator
+        # Formats without this property (Excel, ODS) provide numbers as plain text using a dot.
+        return self._decimal_separator if self.format in (FORMAT_DELIMITED, FORMAT_FIXED) else "."
 
     @decimal_separator.setter
     def decimal_separator(self, new_decimal_separator):
@@ -279,7 +280,8 @@ class DataFormat(object):
 
     @property
     def thousands_separator(self):
-        return self._thousands_separator
+        # Formats without this property (Excel, ODS) provide numbers as plain text without grouping.
+        return self._thousands_separator if self.format in (FORMAT_DELIMITED, FORMAT_FIXED) else ""
 
     @thousands_separator.setter
     def thousands_separator(self, new_thousands_separator):
